@@ -28,6 +28,7 @@ EXPLANATION = (
     "updated only on the load-increase branch, the minimum on the other, both against the current point's strain.")
 EXPLANATION += (' R-C05-7: visited strains are one list split at a counter; every append is followed by `if run_index == 1: counter += 1`, the counter changes nowhere else, the accessors return [:counter] and [counter:]. R-C05-8: a decision taken on the first assessment point and applied to all points compares loads or sample positions only (proportional histories order loads alike at every point); any first-point comparison of stresses or strains is a violation - they are nonlinear in the load factor, and with a binned law even the two ends of one branch can tie at one point and differ at another. R-C05-9: chunk-relative positions (global position minus head index before the chunk); the repair of a turning point lying in the carried tail is guarded by a complete sign test (< 0), and the stored sample is the last load step of the chunk.')
 EXPLANATION += (' R-C05-10: the HCM case decisions compare loads and load ranges exactly up to a fixed absolute round-off guard (a literal <= 1e-9); relative tolerances (np.isclose, rounding) in a decision are violations.')
+EXPLANATION += (' R-C05-14 (shared with R-C04-9): no HCM decision is reduced over the assessment points with all()/any().')
 EXPLANATION += (' R-C05-13: the representative load history of a batch is never taken by striding over the rows of the incoming samples (built-in positive example).')
 EXPLANATION += (' R-C05-11: nothing cached on the FKM-nonlinear recorder or detector survives a later recording call (memo rule).')
 EXPLANATION += (' R-C05-12: the per-point look-up tables of the binned law keep the row order they were built in (shared with R-C07-8).')
@@ -38,7 +39,7 @@ LISTS = ["_loads_min", "_loads_max", "_S_min", "_S_max", "_epsilon_min", "_epsil
 
 
 def run(ctx):
-    for r in (_r1, _r2, _r3, _r4, _r5, _r6, _r7, _r8, _r9, _r10, _r11, _r12, _r13):
+    for r in (_r1, _r2, _r3, _r4, _r5, _r6, _r7, _r8, _r9, _r10, _r11, _r12, _r13, _r14):
         ctx.attempt(r)
 
 
@@ -59,6 +60,48 @@ def _strided_sample_reads(fn_node, params):
                 const_value(n_.slice.step) not in (1, -1) and any(isinstance(x_, ast.Name) and x_.id in derived for x_ in ast.walk(n_.value)):
             out.append(n_)
     return out
+
+
+def point_axis_decisions(fn_node):
+    """branch conditions that reduce a per-point quantity (.load / .stress / .strain of an HCM point, or .values of it) with
+    all()/any(): the decision then depends on every co-assessed point instead of the representative one"""
+    out = []
+    tests = [n_.test for n_ in ast.walk(fn_node) if isinstance(n_, (ast.If, ast.IfExp, ast.While))]
+    for t_ in tests:
+        for c_ in [x_ for x_ in ast.walk(t_) if isinstance(x_, ast.Call)]:
+            red = (isinstance(c_.func, ast.Attribute) and c_.func.attr in ("all", "any") and not c_.args) or \
+                call_name(c_) in ("np.all", "np.any", "all", "any")
+            if red and any(isinstance(x_, ast.Attribute) and x_.attr in ("load", "stress", "strain", "_load", "_stress", "_strain")
+                           for x_ in ast.walk(c_)):
+                out.append(c_)
+    return out
+
+
+def r14_point_axis(ctx, rule):
+    """Decisions of the HCM handlers (which of two points is the lower one, whether a hysteresis closes, ...) are taken on the
+    representative load of the first assessment point only - the points are proportionally loaded by assumption.  A decision
+    reduced over all points with all()/any() flips for the whole batch when one point is unloaded (0 < 0 is False) or loaded
+    with the opposite sign."""
+    prog = ctx.prog
+    ctx.rule(rule, floor=1, what="no HCM decision is reduced over the assessment points with all()/any()")
+    ci = prog.cls(D[:-1])
+    n = 0
+    for name, defs in ci.methods.items():
+        fi = defs[-1]
+        n += 1
+        for c_ in point_axis_decisions(fi.node):
+            ctx.violated(fi, c_, "%s decides on %s: reduced over all assessment points, so one unloaded or oppositely loaded point "
+                         "changes the decision (and the recorded min/max) for every point of the batch" % (fi.name, norm_text(c_)[:90]),
+                         text="point-axis decision " + fi.name)
+    ex = ast.parse("def h(self, p0, p1):\n    if (p0.load.values < p1.load.values).all():\n        lo = p0\n"
+                   "    if p0.load.values[0] < p1.load.values[0]:\n        lo = p0\n").body[0]
+    if len(point_axis_decisions(ex)) != 1:
+        raise AnalysisError("%s built-in example not matched" % rule)
+    ctx.holds(ci.key, None, "no all()/any() over per-point loads, stresses or strains in a branch condition (%d methods)" % n)
+
+
+def _r14(ctx):
+    r14_point_axis(ctx, "R-C05-14")
 
 
 def _r13(ctx):
